@@ -208,6 +208,9 @@ STRENGTHENED = {
                         "`latestep` for protocol scans (the row fails in a later protocol step)",
     "C09-mut_C19-r4m2": "a cache defect (scan.protocol_time_course dropping cache=): results are right, only caching is lost; caught by "
                         "C19, the owning check, see C19-mut_C19-r4m2",
+    "C04-mut7_C04-r7m1": "missed at first (update_variables restarting from the stale y0 of the PREVIOUS override: only a variable the "
+                         "second override does not name shows it); the family got the bystander variable z (same equation, never named "
+                         "in an override; Simulator.tla HistOf / Bystander), 214 value mismatches afterwards",
     "C17-mut_C17-r5m2": "missed at first (sbml.read memoising the parsed document by path); SbmlSession Rewrite(d): the file of a "
                         "document replaced by its twin between two reads, path-memo instance refuted",
 }
